@@ -186,6 +186,27 @@ def bounded_flows(reg, tier, seed):
                 if capkind == "cap" and rp != "resolve_cap" and ser is not None:
                     if ser.cap_name != "Foo" or ser.session_id != str(h.session.id) or ser.region_addr != str(region.circuit_addr) or ser.type != "NORMAL":
                         fail("flows/state", f"routing metadata changed in transfer: {tuple(ser)}", inp)
+        # an exception that ESCAPES the proxy's own handler after an addon took the flow (unparseable EventQueueGet poll body:
+        # the handler's own parse raises after the addon hook ran): the flow stays with the addon until it releases it
+        for b_ in ("take", "take_raise"):
+            a.b = b_
+            a.taken = []
+            f = h.mkflow("https://sim.example/cap/eq", content=b"this is not llsd")
+            exc, back = h.event("request", f)
+            evals += 1
+            seen.add(("escaping-handler-exception", b_))
+            inp = {"event": "request", "addon": b_, "url": "https://sim.example/cap/eq", "body": "not LLSD"}
+            if not a.taken:
+                fail("flows/handback", "the addon hook did not run before the handler failed (harness expectation)", inp)
+                continue
+            if back:
+                fail("flows/handback", f"taken flow handed back {len(back)} times when the proxy's handler raised ({exc!r}), before its owner released it", inp)
+            try:
+                a.taken[0].resume()
+                if len(h.drain(h.flow_context.to_proxy_queue)) != 1:
+                    fail("flows/handback", "taken flow was not handed back exactly once on release after a handler failure", inp)
+            except AssertionError:
+                fail("flows/handback", "the owner could not release its flow after a handler failure (already handed back)", inp)
         # state transfer round trip: from_state(get_state(f)) keeps cap data and flags
         for cap_type in CapType:
             for flags in itertools.product((False, True), repeat=3):
